@@ -45,7 +45,13 @@ func (s sortedIndexer) ByIndex(indexName, indexedValue string) ([]interface{}, e
 type FakeInformer struct {
 	indexer  sortedIndexer
 	handlers []cache.ResourceEventHandler
+	queues   [][]notification // per handler: notifications not yet run (handler lag)
 	Synced   bool
+}
+
+type notification struct {
+	kind     string
+	old, obj interface{}
 }
 
 func NewFakeInformer() *FakeInformer {
@@ -60,18 +66,21 @@ var _ cache.SharedIndexInformer = (*FakeInformer)(nil)
 
 func (f *FakeInformer) AddEventHandler(h cache.ResourceEventHandler) {
 	f.handlers = append(f.handlers, h)
+	f.queues = append(f.queues, nil)
 }
 func (f *FakeInformer) AddEventHandlerWithResyncPeriod(h cache.ResourceEventHandler, _ time.Duration) {
-	f.handlers = append(f.handlers, h)
+	f.AddEventHandler(h)
 }
-func (f *FakeInformer) GetStore() cache.Store                                 { return f.indexer }
-func (f *FakeInformer) GetController() cache.Controller                       { return nil }
-func (f *FakeInformer) Run(stopCh <-chan struct{})                            {}
-func (f *FakeInformer) HasSynced() bool                                       { return f.Synced }
-func (f *FakeInformer) LastSyncResourceVersion() string                       { return "" }
-func (f *FakeInformer) SetWatchErrorHandler(h cache.WatchErrorHandler) error  { return nil }
-func (f *FakeInformer) AddIndexers(indexers cache.Indexers) error             { return f.indexer.AddIndexers(indexers) }
-func (f *FakeInformer) GetIndexer() cache.Indexer                             { return f.indexer }
+func (f *FakeInformer) GetStore() cache.Store                                { return f.indexer }
+func (f *FakeInformer) GetController() cache.Controller                      { return nil }
+func (f *FakeInformer) Run(stopCh <-chan struct{})                           {}
+func (f *FakeInformer) HasSynced() bool                                      { return f.Synced }
+func (f *FakeInformer) LastSyncResourceVersion() string                      { return "" }
+func (f *FakeInformer) SetWatchErrorHandler(h cache.WatchErrorHandler) error { return nil }
+func (f *FakeInformer) AddIndexers(indexers cache.Indexers) error {
+	return f.indexer.AddIndexers(indexers)
+}
+func (f *FakeInformer) GetIndexer() cache.Indexer { return f.indexer }
 
 // NumHandlers returns the number of registered handlers (registration order is delivery order).
 func (f *FakeInformer) NumHandlers() int { return len(f.handlers) }
@@ -134,10 +143,13 @@ func (f *FakeInformer) Apply(kind string, obj interface{}) {
 	}
 }
 
-// Resync re-delivers every cached object as an update (old == new), like a periodic resync.
+// Resync queues, for every handler, an update(o, o) notification for every cached object
+// (periodic resync); the notifications run on NotifyNext / Flush like any other.
 func (f *FakeInformer) Resync() {
 	for _, o := range f.indexer.List() {
-		f.NotifyUpdate(-1, o, o)
+		for i := range f.handlers {
+			f.queues[i] = append(f.queues[i], notification{"update", o, o})
+		}
 	}
 }
 
@@ -150,4 +162,79 @@ func accessorName(obj interface{}) string {
 		return "?"
 	}
 	return a.GetNamespace() + "/" + a.GetName()
+}
+
+// Deliver applies a watch event to the cache (like the shared informer's delta FIFO handler)
+// and queues one notification per registered handler; handlers run on NotifyNext / Flush.
+func (f *FakeInformer) Deliver(kind string, obj interface{}) {
+	var n notification
+	switch kind {
+	case "add", "update":
+		old, ok := f.CacheGet(obj)
+		f.CacheSet(obj)
+		if ok {
+			n = notification{"update", old, obj}
+		} else {
+			n = notification{"add", nil, obj}
+		}
+	case "delete":
+		old, ok := f.CacheGet(obj)
+		if !ok {
+			return
+		}
+		f.CacheDel(obj)
+		n = notification{"delete", nil, old}
+	}
+	for i := range f.handlers {
+		f.queues[i] = append(f.queues[i], n)
+	}
+}
+
+// PendingFor returns the number of notifications handler h has not run yet.
+func (f *FakeInformer) PendingFor(h int) int { return len(f.queues[h]) }
+
+// NotifyNext runs the oldest queued notification of handler h.
+func (f *FakeInformer) NotifyNext(h int) bool {
+	if h >= len(f.queues) || len(f.queues[h]) == 0 {
+		return false
+	}
+	n := f.queues[h][0]
+	f.queues[h] = f.queues[h][1:]
+	switch n.kind {
+	case "add":
+		f.handlers[h].OnAdd(n.obj)
+	case "update":
+		f.handlers[h].OnUpdate(n.old, n.obj)
+	case "delete":
+		f.handlers[h].OnDelete(n.obj)
+	}
+	return true
+}
+
+// Flush runs all queued notifications, handler by handler in registration order per event.
+func (f *FakeInformer) Flush() {
+	for {
+		progressed := false
+		for h := range f.handlers {
+			if f.NotifyNext(h) {
+				progressed = true
+			}
+		}
+		if !progressed {
+			return
+		}
+	}
+}
+
+// ResetHandlers forgets handlers and notifications (controller restart) but keeps the cache.
+func (f *FakeInformer) ResetHandlers() {
+	f.handlers = nil
+	f.queues = nil
+}
+
+// ClearCache empties the cache.
+func (f *FakeInformer) ClearCache() {
+	for _, o := range f.indexer.Indexer.List() {
+		_ = f.indexer.Delete(o)
+	}
 }
